@@ -334,9 +334,10 @@ module.exports = {
           const usable = kind === 'inline' || kind === 'external'
           const sorted = tokens.slice().sort((x, y) => x.genLine - y.genLine || x.genCol - y.genCol)
           for (let q = 0; q < 10; q++) {
-            const line = r.range(1, nLines); const col = r.pick([1, 2, 10, 15, 21, 30])
+            const line = r.range(1, nLines); const colArg = r.pick([1, 2, 10, 15, 21, 30, undefined, 0])
+            const col = colArg || 1 // a lookup by line only (column omitted or 0) asks for the beginning of the line
             let got
-            try { got = pkg.getOriginalPathAndLineFromSourceMap(file, line, col) } catch (e) { rep.violations.push({ sig: 'disk:lookup-threw:' + kind, what: `getOriginalPathAndLineFromSourceMap threw for a ${kind} map: ${e.message}`, witness: { kind, file, line, col } }); continue }
+            try { got = colArg === undefined ? pkg.getOriginalPathAndLineFromSourceMap(file, line) : pkg.getOriginalPathAndLineFromSourceMap(file, line, colArg) } catch (e) { rep.violations.push({ sig: 'disk:lookup-threw:' + kind, what: `getOriginalPathAndLineFromSourceMap threw for a ${kind} map: ${e.message}`, witness: { kind, file, line, col } }); continue }
             rep.evaluations++
             rep.distinct.push(hashStr(spec.stream + ':' + i + ':' + q))
             bump('disk_lookups')
